@@ -143,6 +143,61 @@ def _canonical_branches(tree):
     return ast.fix_missing_locations(_CanonBranches().visit(tree))
 
 
+class _IfElseToTernary(ast.NodeTransformer):
+    def generic_visit(self, node):
+        super().generic_visit(node)
+        for f in ('body', 'orelse', 'finalbody'):
+            v = getattr(node, f, None)
+            if isinstance(v, list) and v and isinstance(v[0], ast.stmt):
+                out = []
+                for st in v:
+                    if isinstance(st, ast.If) and len(st.body) == 1 and len(st.orelse) == 1 and all(
+                            isinstance(b, ast.Assign) and len(b.targets) == 1 and isinstance(b.targets[0], ast.Name) for b in (st.body[0], st.orelse[0])) and \
+                            st.body[0].targets[0].id == st.orelse[0].targets[0].id:
+                        a, b = st.body[0], st.orelse[0]
+                        out.append(ast.copy_location(ast.Assign([ast.Name(a.targets[0].id, ast.Store())], ast.copy_location(ast.IfExp(st.test, a.value, b.value), st)), st))
+                        continue
+                    out.append(st)
+                setattr(node, f, out)
+        return node
+
+
+def ifexp_view(f):
+    """the function with every `if c: v = A  else: v = B` (each branch that one assignment to the same plain name) read as `v = A if c else B` - for the rules that
+    match a conditional VALUE (the ternaries of the pinned tree); path-based rules keep the statement form"""
+    import copy as _copy
+    node = _IfElseToTernary().visit(_copy.deepcopy(f.node))
+    ast.fix_missing_locations(node)
+    if ast.dump(node) == ast.dump(f.node):
+        return f
+    g = FuncInfo(f.module, f.qual, node, cls=f.cls, parent=f.parent)
+    g.forced, g.nested = f.forced, f.nested
+    return g
+
+
+class _TernaryToIfElse(ast.NodeTransformer):
+    def visit_Assign(self, n):
+        if len(n.targets) == 1 and isinstance(n.targets[0], ast.Name) and isinstance(n.value, ast.IfExp):
+            t = n.targets[0]
+            a = ast.copy_location(ast.Assign([ast.Name(t.id, ast.Store())], n.value.body), n)
+            b = ast.copy_location(ast.Assign([ast.Name(t.id, ast.Store())], n.value.orelse), n)
+            return ast.copy_location(ast.If(n.value.test, [a], [b]), n)
+        return n
+
+
+def ifstmt_view(f):
+    """the function with every `v = A if c else B` (plain-name target) read as `if c: v = A  else: v = B` - for the PATH-based rules that follow the two
+    alternatives of a selection as branches (the if / else statements of the pinned tree)"""
+    import copy as _copy
+    node = _TernaryToIfElse().visit(_copy.deepcopy(f.node))
+    ast.fix_missing_locations(node)
+    if ast.dump(node) == ast.dump(f.node):
+        return f
+    g = FuncInfo(f.module, f.qual, node, cls=f.cls, parent=f.parent)
+    g.forced, g.nested = f.forced, f.nested
+    return g
+
+
 class ModuleInfo:
     def __init__(self, name, relpath, src, is_pkg):
         self.name, self.relpath, self.src, self.is_pkg = name, relpath, src, is_pkg
